@@ -1079,5 +1079,6 @@ func (ex *Exec) localEnv(fr *Frame, st *State, at ssa.Instruction) *Env {
 		}
 	}
 	ex.applyAliases(env, fr.fn)
+	ex.applyBinds(env, fr, atBlock)
 	return env
 }
